@@ -246,18 +246,35 @@ func (p *Plain) Classify(o Op) Expect {
 				if o.Key == "" {
 					return Expect{Class: MayErr, NOps: 1}
 				}
+				// the previous value of the key; when there is none the implementation may hand back
+				// the handle of a value removed earlier (a tombstone) - not judged
+				if prev, ok := m[o.Key]; ok {
+					return Expect{Class: OK, NOps: 1, Ret: Canon(prev), HasRet: true}
+				}
 				return Expect{Class: OK, NOps: 1}
 			}
 			if _, ok := m[o.Key]; !ok {
 				return Expect{Class: MayErr, NOps: 1}
 			}
-			return Expect{Class: OK, NOps: 1}
+			return Expect{Class: OK, NOps: 1, Ret: Canon(m[o.Key]), HasRet: true}
 		case "ins", "del", "del1", "upd":
 			a, isArr := node.([]interface{})
 			if !isArr {
 				return Expect{Class: MustErr}
 			}
-			return seqExpect(len(a), o, true)
+			e := seqExpect(len(a), o, true)
+			if e.Class == OK {
+				// the values the call removed / replaced
+				switch o.Kind {
+				case "del":
+					e.Ret, e.HasRet = Canon(a[o.Pos:o.Pos+o.N]), true
+				case "del1":
+					e.Ret, e.HasRet = Canon(a[o.Pos]), true
+				case "upd":
+					e.Ret, e.HasRet = Canon(a[o.Pos:o.Pos+len(o.Vals)]), true
+				}
+			}
+			return e
 		}
 	}
 	return Expect{Class: MustErr}
